@@ -20,6 +20,12 @@ WORDS = [("arith::load", w, 2) for w in ["+", "-", "*", "/", "rem", "min", "max"
         [("bitstr_ext::load", w, 1) for w in ["bits", "bytes", "seek", "int", "uint", "bitstr-len", ">b", ">kb", "open-bitstr"]]
 
 
+# the every-change subset: one representative per implementation family and argument position
+QUICK = {("+", 0), ("+", 1), ("<", 0), ("==", 1), ("band", 0), ("bsl", 1), ("and", 0), ("neg", 0), ("round", 0), ("zero?", 0), ("not", 0),
+         ("length", 0), ("nth", 0), ("nth", 1), ("get", 0), ("get", 1), ("insert", 0), ("remove", 0), ("equal?", 0), ("slice", 0), ("reverse", 0),
+         ("bits", 0), ("seek", 0), ("uint", 0), ("open-bitstr", 0)}
+
+
 def strip_tag(L, c):
     """value() of a concretised cell"""
     if isinstance(c, Enum) and c.variant == "WithTag":
@@ -173,7 +179,7 @@ def run(L, tier, only=None):
             continue
         positions = range(arity)
         for pos in positions:
-            if False:
+            if quick and not only and (word, pos) not in QUICK:
                 continue
             L.lemma("C13 %s arg%d" % (word, pos), relational_lemma(loader, word, arity, pos))
     if not only or "with-tags" in only:
